@@ -86,7 +86,9 @@ func Project(doc, projection bsonkit.Doc) (bsonkit.Doc, error) {
 			}
 			value := bsonkit.Get(doc, path)
 			if value != bsonkit.Missing {
-				_, err = bsonkit.Put(res, path, value, false)
+				// copy the value so that overlapping paths and operator
+				// overlays never write through to the original document
+				_, err = bsonkit.Put(res, path, bsonkit.MustConvertValue(value), false)
 				if err != nil {
 					return nil, err
 				}
